@@ -28,7 +28,7 @@ theorem uniqueOut_nil_of_noInst (X : SchemaX) (o : VOpts) (cx : Cx) (L : List DN
   · simp [uniqueCheck]
 
 section node
-variable (X : SchemaX) (o : VOpts) (cx : Cx) (hop : o.operational = false) {E L : List DNode} (hc : LvCnt E L)
+variable (X : SchemaX) (o : VOpts) (cx : Cx) (hop : o.operational = false) {E L : List DNode} (hc : LvCnt X.base E L)
 include hop hc
 
 /-- completeness: a cardinality constraint the explicit data violate is reported -/
@@ -88,11 +88,16 @@ theorem node_complete (k : STree) (hk : k.info.kind ≠ .choice) (hs : saneData 
             split at hK
             · rename_i h; simpa using h
             · cases hK
-        have hd : i.dflts.isEmpty = true := by
-          rcases hs.1 with hd | hd
-          · exact hd
-          · exfalso; omega
-        have hLE : hasInst L s = hasInst E s := by rw [hH]; simp [hd]
+        have hLE : hasInst L s = hasInst E s := by
+          cases hE : hasInst E s with
+          | true => rw [hH, hE]; rfl
+          | false =>
+            have h0 := instsOf_len_zero hE
+            have hd : i.dflts.isEmpty = true := by
+              rcases hs.1 with hd | hd
+              · exact hd
+              · exfalso; omega
+            rw [hH, hE]; simp [hd]
         have hlen : (instsOf L s).length = (instsOf E s).length := hc.len_eq hLE
         intro hnil
         have := (minmaxOut_nil_iff X.base o cx L (.mk s i ks) hop hmm.1 hmm.2 (hc.insts_le hLE)).1 hnil
@@ -125,7 +130,7 @@ theorem node_complete (k : STree) (hk : k.info.kind ≠ .choice) (hs : saneData 
         omega
 
 /-- a node without a mandatory statement of its own and without explicit instances is not complained about -/
-theorem node_quiet (k : STree) (hk : k.info.kind ≠ .choice) (hs : saneData k = true)
+theorem node_quiet (k : STree) (hk : k.info.kind ≠ .choice) (hs : saneData k = true) (hget : X.base.get? k.sid = some k.info)
     (hH : hasInst L k.sid = (hasInst E k.sid || wantsImplicit o k)) (hq : quietNode k = true) (hE : hasInst E k.sid = false) :
     (nodeOut X o cx L k).errs = [] := by
   cases k with
@@ -153,16 +158,21 @@ theorem node_quiet (k : STree) (hk : k.info.kind ≠ .choice) (hs : saneData k =
         simp [hq]
       | leaflist =>
         simp only [hkind, Bool.and_eq_true, Bool.or_eq_true, beq_iff_eq] at hq hs hH ⊢
-        have hmm := mmSaneB_spec hs.2
-        simp only [STree.info] at hmm
-        rcases hs.1 with hd | hd
-        · have hL : hasInst L s = false := by rw [hH]; simp [hd]
-          rw [minmaxOut_nil_iff X.base o cx L (.mk s i ks) hop hmm.1 hmm.2 (hc.insts_le (hL.trans hE.symm))]
-          simp only [STree.info, STree.sid]
-          rw [instsOf_len_zero hL]
-          omega
-        · unfold minmaxOut
-          simp [STree.info, hd.1, hd.2]
+        have hmx := mmSaneB_max hs.2
+        simp only [STree.info] at hmx
+        have hle : i.max = 0 ∨ (instsOf L s).length ≤ i.max := by
+          by_cases h0 : i.max = 0
+          · exact Or.inl h0
+          · right
+            rcases hs.1 with hd | hd
+            · have hL : hasInst L s = false := by rw [hH]; simp [hd]
+              rw [instsOf_len_zero hL]
+              exact Nat.zero_le _
+            · have hb := hc.dcnt s hE
+              rw [dfltBound_of_get (show X.base.get? s = some i from hget)] at hb
+              have := of_decide_eq_true (hd.2.resolve_left h0)
+              omega
+        exact minmaxOut_nil_of_le X.base o cx L (.mk s i ks) hq hle hmx
       | list =>
         simp only [hkind, beq_iff_eq] at hq hs hH ⊢
         have hL : hasInst L s = false := by rw [hH]; simp
@@ -483,18 +493,24 @@ theorem choice_not_skip {o : VOpts} {i : SNode} (h : ¬ (i.kind ≠ .choice ∨ 
     | false => rfl
     | true => exact absurd (Or.inr hst) h
 
+/-- the schema nodes at or below the children of a case of a choice of the level are below the level -/
+theorem below_case_kids {cks : List STree} {s : Nat} {i : SNode} {cases : List STree} {c : STree} (hmem : STree.mk s i cases ∈ cks)
+    (hcm : c ∈ cases) : ∀ k, BelowL k c.kids → BelowL k cks :=
+  fun _ hb => BelowL.trans' hb (fun _ ha => BelowL.kid_of_below (BelowL.kid_of_below (BelowL.of_mem hmem) hcm) ha)
+
 /-! ## C. the level theorems -/
 
 section level
-variable (X : SchemaX) (o : VOpts) (cx : Cx) (hop : o.operational = false) {E L : List DNode} (hc : LvCnt E L)
+variable (X : SchemaX) (o : VOpts) (cx : Cx) (hop : o.operational = false) {E L : List DNode} (hc : LvCnt X.base E L)
 include hop hc
 
 theorem level_quiet_step (cks : List STree)
     (ih : ∀ cks' : List STree, sheightL cks' < sheightL cks → kindsOkL cks' = true → (dataSidsL cks').Nodup → saneL cks' = true →
-      cks'.all quietNode = true → Sel o (hasInst E) (hasInst L) cks' → (∀ sid ∈ dataSidsL cks', hasInst E sid = false) →
-      (schemaRL X o cx L cks').errs = [])
+      cks'.all quietNode = true → Sel o (hasInst E) (hasInst L) cks' → (∀ k, BelowL k cks' → X.base.get? k.sid = some k.info) →
+      (∀ sid ∈ dataSidsL cks', hasInst E sid = false) → (schemaRL X o cx L cks').errs = [])
     (hk : kindsOkL cks = true) (hnd : (dataSidsL cks).Nodup) (hsane : saneL cks = true) (hq : cks.all quietNode = true)
-    (hs : Sel o (hasInst E) (hasInst L) cks) (hE : ∀ sid ∈ dataSidsL cks, hasInst E sid = false) :
+    (hs : Sel o (hasInst E) (hasInst L) cks) (hget : ∀ k, BelowL k cks → X.base.get? k.sid = some k.info)
+    (hE : ∀ sid ∈ dataSidsL cks, hasInst E sid = false) :
     (schemaRL X o cx L cks).errs = [] := by
   rw [List.eq_nil_iff_forall_not_mem]
   intro e he
@@ -537,18 +553,20 @@ theorem level_quiet_step (cks : List STree)
           have hd := selCase_dflt hselc hpE
           have hsT := saneT_choice (saneL_mem hsane hmem) hkind
           have hcs := saneCs_mem i.dfltCase hsT.2.2 hcm
-          have := ih c.kids (sheight_down hmem hcm) hwf.1 hwf.2.1 hcs.1 (hcs.2 hd) ((hdown c hcm).1 hselc) hEc
+          have := ih c.kids (sheight_down hmem hcm) hwf.1 hwf.2.1 hcs.1 (hcs.2 hd) ((hdown c hcm).1 hselc)
+            (fun k hb => hget k (below_case_kids hmem hcm k hb)) hEc
           rw [this] at he; cases he
   · -- a node
     by_cases hkc : k.info.kind = .choice
     · rw [nodeOut_choice _ _ _ _ _ hkc] at he; exact not_mem_empty_errs he
     · obtain ⟨hsd, _, hH, hsid⟩ := level_node_facts hs hk hnd hsane hmem hkc
-      have := node_quiet X o cx hop hc k hkc hsd hH (List.all_eq_true.1 hq _ hmem) (hE _ hsid)
+      have := node_quiet X o cx hop hc k hkc hsd (hget k (BelowL.of_mem hmem)) hH (List.all_eq_true.1 hq _ hmem) (hE _ hsid)
       rw [this] at he; cases he
 
 /-- a level whose nodes have no mandatory statement of their own and no explicit data is not complained about -/
 theorem level_quiet : ∀ (n : Nat) (cks : List STree), sheightL cks ≤ n → kindsOkL cks = true → (dataSidsL cks).Nodup →
     saneL cks = true → cks.all quietNode = true → Sel o (hasInst E) (hasInst L) cks →
+    (∀ k, BelowL k cks → X.base.get? k.sid = some k.info) →
     (∀ sid ∈ dataSidsL cks, hasInst E sid = false) → (schemaRL X o cx L cks).errs = [] := by
   intro n
   induction n with
@@ -569,9 +587,10 @@ def SoundAt (X : SchemaX) (o : VOpts) (cx : Cx) (E L : List DNode) (cks : List S
 
 theorem level_sound_step (cks : List STree)
     (ih : ∀ cks' : List STree, sheightL cks' < sheightL cks → kindsOkL cks' = true → (dataSidsL cks').Nodup → saneL cks' = true →
-      Sel o (hasInst E) (hasInst L) cks' → ∀ e ∈ (schemaRL X o cx L cks').errs, SoundAt X o cx E L cks' e)
+      Sel o (hasInst E) (hasInst L) cks' → (∀ k, BelowL k cks' → X.base.get? k.sid = some k.info) →
+      ∀ e ∈ (schemaRL X o cx L cks').errs, SoundAt X o cx E L cks' e)
     (hk : kindsOkL cks = true) (hnd : (dataSidsL cks).Nodup) (hsane : saneL cks = true)
-    (hs : Sel o (hasInst E) (hasInst L) cks) :
+    (hs : Sel o (hasInst E) (hasInst L) cks) (hget : ∀ k, BelowL k cks → X.base.get? k.sid = some k.info) :
     ∀ e ∈ (schemaRL X o cx L cks).errs, SoundAt X o cx E L cks e := by
   intro e he
   rw [schemaRL_errs_mem] at he
@@ -626,7 +645,8 @@ theorem level_sound_step (cks : List STree)
             have hcs := saneCs_mem i.dfltCase hsT.2.2 hcm
             cases hpE : c.dataSids.any (hasInst E) with
             | true =>
-              rcases ih c.kids (sheight_down hmem hcm) hwf.1 hwf.2.1 hcs.1 ((hdown c hcm).1 hselc) e he with h | ⟨hkd, k, hr, hrest⟩
+              rcases ih c.kids (sheight_down hmem hcm) hwf.1 hwf.2.1 hcs.1 ((hdown c hcm).1 hselc)
+                (fun k hb => hget k (below_case_kids hmem hcm k hb)) e he with h | ⟨hkd, k, hr, hrest⟩
               · left
                 rw [cardL_mem]
                 refine ⟨_, hmem, ?_⟩
@@ -647,12 +667,12 @@ theorem level_sound_step (cks : List STree)
                 have := List.any_eq_false.1 hpE sid hsid
                 simpa using this
               have := level_quiet X o cx hop hc (sheightL c.kids) c.kids (Nat.le_refl _) hwf.1 hwf.2.1 hcs.1 (hcs.2 hd)
-                ((hdown c hcm).1 hselc) hEc
+                ((hdown c hcm).1 hselc) (fun k hb => hget k (below_case_kids hmem hcm k hb)) hEc
               rw [this] at he; cases he
   · by_cases hkc : k.info.kind = .choice
     · rw [nodeOut_choice _ _ _ _ _ hkc] at he; exact (not_mem_empty_errs he).elim
     · obtain ⟨hsd, hcase, hH, _⟩ := level_node_facts hs hk hnd hsane hmem hkc
-      rcases node_sound X o cx hc k hkc hsd hH e he with h | ⟨hkd, hrest⟩
+      rcases node_sound X o cx hc k hkc hsd (hget k (BelowL.of_mem hmem)) hH e he with h | ⟨hkd, hrest⟩
       · left
         rw [cardL_mem]
         exact ⟨k, hmem, h⟩
@@ -662,7 +682,7 @@ theorem level_sound_step (cks : List STree)
 /-- soundness of the schema-based checks of a completed level: every error names a cardinality constraint that the explicit
 data violate, or it is an error of `lyd_validate_unique` on a list the specification visits -/
 theorem level_sound : ∀ (n : Nat) (cks : List STree), sheightL cks ≤ n → kindsOkL cks = true → (dataSidsL cks).Nodup →
-    saneL cks = true → Sel o (hasInst E) (hasInst L) cks →
+    saneL cks = true → Sel o (hasInst E) (hasInst L) cks → (∀ k, BelowL k cks → X.base.get? k.sid = some k.info) →
     ∀ e ∈ (schemaRL X o cx L cks).errs, e.kind ∈ cardL o E cks ∨ (e.kind = .noUniq ∧ ∃ k, Reach (hasInst E) cks k ∧
       k.info.kind = .list ∧ (o.noState && !k.info.config) = false ∧ (uniqueOut X o cx L k).errs ≠ []) := by
   intro n
